@@ -38,7 +38,7 @@ def make_case(i, rng, tier):
     container = rng.choice(("hex", "hex", "swtpm", "pcapng"))
     if rng.random() < 0.025:
         # a long capture: the text / file crosses the block sizes a buffered reader would use (4096, 8192, 65536 ...)
-        inp = common.long_stream(rng, rng.choice((1500, 3000, 3000, 6000, 23000)))
+        inp = common.long_stream(rng, rng.choice((1500, 3000, 3000, 6000, 18000)))
         container = rng.choice(("hex", "hex", "swtpm"))
     elif container == "hex" and rng.random() < 0.4:
         inp = common.gen_input(rng, common.target_for(i, rng))
